@@ -33,6 +33,7 @@ type event struct {
 
 type recorder struct {
 	mu      sync.Mutex
+	read    []wireReq // requests as the server's parser read them (OnRequest)
 	events  []event
 	nMedias int
 	user    string // non-empty: the server demands these credentials
@@ -65,6 +66,7 @@ func (r *recorder) add(e event) {
 func (r *recorder) reset(n int, user, pass string) {
 	r.mu.Lock()
 	r.events = nil
+	r.read = nil
 	r.nMedias = n
 	r.user, r.pass = user, pass
 	r.mu.Unlock()
@@ -114,6 +116,23 @@ func (h *e2eHandler) sessionMedias(ss *gortsplib.ServerSession) []int {
 		return mediaIndexes(st.Desc.Medias, ss.Medias())
 	}
 	return nil
+}
+
+// OnRequest records every request as read by the server's parser.
+func (h *e2eHandler) OnRequest(_ *gortsplib.ServerConn, req *base.Request) {
+	q := wireReq{Method: string(req.Method), Target: "*"}
+	if req.URL != nil {
+		q.Target = req.URL.String()
+	}
+	h.s.rec.mu.Lock()
+	h.s.rec.read = append(h.s.rec.read, q)
+	h.s.rec.mu.Unlock()
+}
+
+func (r *recorder) readSnapshot() []wireReq {
+	r.mu.Lock()
+	defer r.mu.Unlock()
+	return append([]wireReq(nil), r.read...)
 }
 
 func (h *e2eHandler) OnDescribe(ctx *gortsplib.ServerHandlerOnDescribeCtx) (*base.Response, *gortsplib.ServerStream, error) {
@@ -325,7 +344,8 @@ func (c *E2ECase) resolved(port int) URLParts {
 }
 
 type e2eResult struct {
-	step    string // "" = all steps done; otherwise the client call that failed
+	read    []wireReq // requests as the server's parser read them
+	step    string    // "" = all steps done; otherwise the client call that failed
 	err     string
 	events  []event
 	reqs    []wireReq
@@ -347,7 +367,8 @@ func transient(err string) bool {
 // transient network error is run again, at most twice).
 func (s *e2eServer) runE2E(c *E2ECase) *e2eResult {
 	r := s.runE2EOnce(c)
-	for i := 0; i < 2 && r.step != "" && transient(r.err); i++ {
+	for i := 0; i < 2 && r.step != "" && transient(r.err) && !tooManyTimeouts(); i++ {
+		noteTimeout(r.err)
 		time.Sleep(200 * time.Millisecond)
 		r = s.runE2EOnce(c)
 	}
@@ -391,8 +412,12 @@ func (s *e2eServer) runE2EOnce(c *E2ECase) *e2eResult {
 	fail := func(step string, err error) *e2eResult {
 		res.step, res.err = step, err.Error()
 		cl.Close()
-		res.events = s.rec.snapshot()
 		res.reqs = w.requests()
+		for i := 0; i < 20 && len(s.rec.readSnapshot()) < len(res.reqs); i++ {
+			time.Sleep(5 * time.Millisecond)
+		}
+		res.events = s.rec.snapshot()
+		res.read = s.rec.readSnapshot()
 		return res
 	}
 	if err = cl.Start(); err != nil {
@@ -445,8 +470,13 @@ func (s *e2eServer) runE2EOnce(c *E2ECase) *e2eResult {
 			}
 		}
 	}
-	cl.Close() // sends TEARDOWN
+	cl.Close() // sends TEARDOWN without waiting for the answer
+	res.reqs = w.requests()
+	for i := 0; i < 100 && len(s.rec.readSnapshot()) < len(res.reqs); i++ {
+		time.Sleep(5 * time.Millisecond) // let the server read it before the next case starts
+	}
 	res.events = s.rec.snapshot()
+	res.read = s.rec.readSnapshot()
 	res.reqs = w.requests()
 	return res
 }
